@@ -84,55 +84,79 @@ def run_z3new(smt2, timeout_s=CLI_TIMEOUT_S):
         os.unlink(path)
 
 
-def prove(ob, second_solver=False, timeout_ms=None):
-    """-> Verdict.  status in proved / refuted / undecided"""
+FAST_MS = int(os.environ.get('VF_FAST_MS', '1500'))
+
+
+def prove_fast(ob):
+    """in-process z3 with a short budget -> (Verdict | None, smt2 text when undecided)"""
     t0 = time.time()
     s = z3.Solver()
-    s.set('timeout', timeout_ms or Z3_TIMEOUT_MS)
+    s.set('timeout', FAST_MS)
     s.add(*ob.pc)
     s.add(z3.Not(ob.goal))
     goal_text = str(z3.simplify(ob.goal))
     if len(goal_text) > 600:
         goal_text = goal_text[:600] + '...'
     r = s.check()
-    backend = 'z3'
-    model = None
-    reason = None
     if r == z3.unsat:
-        status = 'proved'
-    elif r == z3.sat:
-        status = 'refuted'
-        model = _model_to_dict(s.model())
+        return Verdict(ob.name, ob.tag, 'proved', 'z3', time.time() - t0, None, None, ob.meta, goal_text), None
+    if r == z3.sat:
+        return Verdict(ob.name, ob.tag, 'refuted', 'z3', time.time() - t0, _model_to_dict(s.model()), None, ob.meta, goal_text), None
+    v = Verdict(ob.name, ob.tag, 'undecided', 'z3', time.time() - t0, None, s.reason_unknown(), ob.meta, goal_text)
+    return v, s.to_smt2()
+
+
+def prove_slow(v, smt2, timeout_s):
+    """second stage for queries the fast pass left open: cvc5 (strings) and z3-new CLIs,
+    run by the caller in a thread pool."""
+    t0 = time.time()
+    c = run_cvc5(smt2, timeout_s)
+    if c == 'unsat':
+        v.status, v.backend = 'proved', 'cvc5'
     else:
-        reason = s.reason_unknown()
-        status = 'undecided'
-        smt2 = s.to_smt2()
-        cli_t = max(5, min(CLI_TIMEOUT_S, int((timeout_ms or Z3_TIMEOUT_MS) / 1000) * 2))
-        c = run_cvc5(smt2, cli_t)
-        if c == 'unsat':
-            status, backend = 'proved', 'cvc5'
-        elif c == 'sat':
-            # cvc5 models are not parsed; a sat answer alone is kept as undecided unless
-            # z3 can confirm with a longer budget
-            s2 = z3.Solver()
-            s2.set('timeout', (timeout_ms or Z3_TIMEOUT_MS) * 3)
-            s2.add(*ob.pc)
-            s2.add(z3.Not(ob.goal))
-            if s2.check() == z3.sat:
-                status, backend, model = 'refuted', 'z3', _model_to_dict(s2.model())
-            else:
-                status, backend, reason = 'refuted', 'cvc5', 'cvc5 sat (no model extracted)'
+        zn = run_z3new(smt2, timeout_s)
+        if zn == 'unsat':
+            v.status, v.backend = 'proved', 'z3-new'
+        elif zn == 'sat' or c == 'sat':
+            v.status, v.backend = 'refuted', ('z3-new' if zn == 'sat' else 'cvc5')
+            v.reason = 'sat (model not extracted from CLI run)'
         else:
-            zn = run_z3new(smt2, cli_t)
-            if zn == 'unsat':
-                status, backend = 'proved', 'z3-new'
-    if status == 'proved' and second_solver and backend == 'z3':
-        c = run_cvc5(s.to_smt2())
-        if c == 'sat':
-            status, reason = 'undecided', 'z3 unsat but cvc5 sat (solver disagreement)'
-        elif c == 'unsat':
-            backend = 'z3+cvc5'
-    return Verdict(ob.name, ob.tag, status, backend, time.time() - t0, model, reason, ob.meta, goal_text)
+            v.reason = f'unknown/timeout after {timeout_s}s in cvc5 and z3-new (z3 API: {v.reason})'
+    v.seconds += time.time() - t0
+    return v
+
+
+def prove_all(obligations, timeout_s=20, second_solver=False, jobs=8):
+    from concurrent.futures import ThreadPoolExecutor
+    verdicts = [None] * len(obligations)
+    slow = []
+    for i, ob in enumerate(obligations):
+        v, smt2 = prove_fast(ob)
+        verdicts[i] = v
+        if smt2 is not None:
+            slow.append((i, smt2))
+        elif second_solver and v.status == 'proved':
+            slow.append((i, None))
+    if slow:
+        def work(item):
+            i, smt2 = item
+            v = verdicts[i]
+            if smt2 is None:
+                ob = obligations[i]
+                c = run_cvc5(smt2_of(ob.pc, ob.goal), timeout_s)
+                if c == 'sat':
+                    v.status, v.reason = 'undecided', 'z3 unsat but cvc5 sat (solver disagreement)'
+                elif c == 'unsat':
+                    v.backend = 'z3+cvc5'
+                return
+            prove_slow(v, smt2, timeout_s)
+        with ThreadPoolExecutor(jobs) as ex:
+            list(ex.map(work, slow))
+    return verdicts
+
+
+def prove(ob, second_solver=False, timeout_ms=None):
+    return prove_all([ob], timeout_s=max(5, int((timeout_ms or Z3_TIMEOUT_MS) / 1000)), second_solver=second_solver)[0]
 
 
 def satisfiable(pc, timeout_ms=5000):
